@@ -1,3 +1,4 @@
 import SfsModel.Model.Index
 import SfsModel.Model.Array
 import SfsModel.Model.Spectrum
+import SfsModel.Model.Create
